@@ -613,7 +613,9 @@ def rule_update(g, r):
     """an appchain admin proposes another master rule ("against appchains whose rule was changed"): c3 (rule rejects) asks for
     the accept-everything rule, or c1 / c2 ask for the rejecting one; governance approves or rejects; IBTPs of that chain are
     probed before, while the proposal is open, and afterwards, each bracketed by dumps and by a read of the bound master rule"""
-    c = r.choice(["c3", "c3", "c1", "c2"])
+    # only c3 has a second bindable rule in the world (for c1 / c2 the update is refused: "rule does not exist"); one history in
+    # five still asks for it on c1 / c2 — a refused update must change nothing either
+    c = r.choice(["c3", "c3", "c3", "c3", "c1", "c2"])
     new = RULES["happy"] if c == "c3" else RULES["simfabric"]
     ca = "ca" + c[1]
     svc = {"c1": "c1:s1", "c2": "c2:s1", "c3": "c3:s1"}[c]
@@ -640,6 +642,17 @@ def rule_update(g, r):
     state["idx"] = 1 if state["idx"] > 1 and c == "c3" else state["idx"]
     for _ in range(2):
         probe()
+    if c == "c3" and ballot == "approve" and r.random() < 0.5:
+        # and back again: the rejecting rule becomes the master rule once more
+        ref2 = f"@{ca}-{PRELUDE_PROPOSALS[ca] + 1}"
+        g.ops.append(f"block bvm {ca} rule UpdateMasterRule s:{c} s:{RULES['simfabric']} s:reason")
+        g.ops.append(f"q prop {ref2}")
+        for v in ["adm0", "adm1", "adm2"]:
+            g.ops.append(f"block bvm {v} gov Vote s:{ref2} s:approve s:r")
+        g.ops.append(f"q prop {ref2}")
+        for _ in range(2):
+            probe()
+        g.tags.add("rule-update:back-again")
     g.tags.add(f"rule-update:{c}:{ballot}")
 
 
